@@ -23,7 +23,7 @@ Count(reg, cond) == IF cond THEN TLCSet(reg, TLCGet(reg) + 1) ELSE TRUE
 
 WellFormed(q) ==
    /\ \A i \in DOMAIN q.parts : q.parts[i].k \in Keys /\ q.parts[i].c \in Classes
-   /\ Len(q.parts) <= 2
+   /\ Len(q.parts) <= 3
    /\ q.ctx = CtxOf(q.ep, q.tail, q.parts)
    /\ (q.ep = "livesim2" /\ q.asset = "known") => q.tail \in LiveTails
 
